@@ -9,6 +9,7 @@ package h
 import (
 	"context"
 	"math/rand"
+	"strings"
 	"time"
 
 	"google.golang.org/grpc/codes"
@@ -32,8 +33,11 @@ func init() {
 		}
 		for r := 0; r < reps; r++ {
 			for _, kind := range disturberKinds {
-				for _, dir := range []string{"forward", "reverse"} {
+				for _, dir := range allDirs {
 					for _, mode := range []string{"gated", "cap1", "cap4", "free"} {
+						if strings.HasPrefix(dir, "nested") && mode != "free" {
+							continue // gate / bounded capacity on the outer carrier of a nested tunnel: see sanitizeCfg
+						}
 						for _, fc := range []bool{true, false} {
 							needsFC := kind == "handler-never-reads" || kind == "caller-never-reads" || kind == "both-never-read" || kind == "many-never-read"
 							if needsFC && !fc {
@@ -227,7 +231,7 @@ func famDisturb(w *World, c *Case, rng *rand.Rand) {
 					w.driveGate(rng, 12+rng.Intn(20))
 				}
 				w.Wait()
-				if w.Cfg.Dir == "forward" {
+				if len(w.RevSrvs) == 0 {
 					w.Handler.InitiateShutdown()
 				} else {
 					go w.RevSrvs[0].GracefulStop()
